@@ -21,6 +21,8 @@ use vh::{run_main, Ctx, Local, Mismatch};
 enum Fm {
     Std,
     Hosts,
+    /// standard format, loaded from a list that was granted permission bit 0
+    StdPerm,
 }
 
 /// Ordered simplest-first inside each family. Every entry is verified at start-up to be accepted
@@ -109,6 +111,9 @@ const R_ALL: &[(&str, Fm)] = &[
     ("example.com##+js(sl1, alpha)", Fm::Std),
     ("example.com,ads.net##+js(sl2, alpha, \"be, ta\")", Fm::Std),
     ("example.com##+js(permlet)", Fm::Std),
+    // the same two scriptlet rules once more from a list with another permission mask
+    ("example.com##+js(sl1, alpha)", Fm::StdPerm),
+    ("example.com##+js(permlet)", Fm::StdPerm),
     ("example.com#@#+js()", Fm::Std),
     ("sub.example.com#@#+js(sl1, alpha)", Fm::Std),
     ("example.*##.entity-ad", Fm::Std),
@@ -253,9 +258,10 @@ fn filter_set(rules: &[RuleRef], debug: bool) -> (FilterSet, usize) {
     for (text, fm) in rules {
         let opts = ParseOptions {
             format: match fm {
-                Fm::Std => FilterFormat::Standard,
+                Fm::Std | Fm::StdPerm => FilterFormat::Standard,
                 Fm::Hosts => FilterFormat::Hosts,
             },
+            permissions: if *fm == Fm::StdPerm { adblock::resources::PermissionMask::from_bits(1) } else { Default::default() },
             ..ParseOptions::default()
         };
         if fs.add_filter(text, opts).is_ok() {
@@ -462,7 +468,7 @@ struct Env {
 fn case_json(universe: &str, index: u64, rules: &[RuleRef], cfg: Cfg, cfg_index: usize) -> Value {
     json!({
         "universe": universe, "index": index, "config": cfg_index,
-        "rules": rules.iter().map(|(r, f)| json!({"r": r, "f": if *f == Fm::Hosts { "hosts" } else { "standard" }})).collect::<Vec<_>>(),
+        "rules": rules.iter().map(|(r, f)| json!({"r": r, "f": match f { Fm::Hosts => "hosts", Fm::StdPerm => "standard+perm", Fm::Std => "standard" }})).collect::<Vec<_>>(),
         "debug": cfg.debug, "optimize": cfg.optimize,
     })
 }
@@ -755,7 +761,7 @@ fn replay(case: &Value, l: &mut Local) {
                 .map(|r| {
                     (
                         r["r"].as_str().unwrap_or("").to_string(),
-                        if r["f"].as_str() == Some("hosts") { Fm::Hosts } else { Fm::Std },
+                        match r["f"].as_str() { Some("hosts") => Fm::Hosts, Some("standard+perm") => Fm::StdPerm, _ => Fm::Std },
                     )
                 })
                 .collect()
